@@ -216,7 +216,7 @@ pub fn set_phase(p: u8) {
     });
 }
 
-fn thread_cpu_ns(tid: libc::pthread_t) -> Option<u64> {
+pub fn thread_cpu_ns(tid: libc::pthread_t) -> Option<u64> {
     let mut cid: libc::clockid_t = 0;
     if unsafe { libc::pthread_getcpuclockid(tid, &mut cid) } != 0 {
         return None;
@@ -231,15 +231,58 @@ fn guarded<E: Engine>(e: &E, slot: &'static Slot, run: u64, case: &E::Case, stat
     slot.cpu_start_ns.store(thread_cpu_ns(me).unwrap_or(0), Ordering::SeqCst);
     slot.phase.store(0, Ordering::SeqCst);
     CUR_PHASE.with(|c| *c.borrow_mut() = Some(&slot.phase));
+    CUR_SLOT.with(|c| c.set(Some(slot)));
     slot.busy.store(run + 1, Ordering::SeqCst);
     let r = e.execute(case, stats, work);
     slot.busy.store(0, Ordering::SeqCst);
     r
 }
 
+thread_local! {
+    static CUR_SLOT: std::cell::Cell<Option<&'static Slot>> = std::cell::Cell::new(None);
+}
+
+struct BatchInfo {
+    prop: &'static str,
+    name: &'static str,
+    seed: u64,
+    replay_dir: PathBuf,
+    known: Vec<KnownFinding>,
+}
+static BATCH: std::sync::OnceLock<BatchInfo> = std::sync::OnceLock::new();
+
+/// For engines that run the subject on threads of their own: a subject thread that can no longer be stopped
+/// (spinning or blocked for good) poisons the process, so the batch ends here with the violation, exactly
+/// like a run that exhausts its CPU budget (the case is not minimised).
+pub fn abort_batch(v: Violation) -> ! {
+    let (prop, name, seed, dir, known): (&str, &str, u64, PathBuf, &[KnownFinding]) = match BATCH.get() {
+        Some(b) => (b.prop, b.name, b.seed, b.replay_dir.clone(), &b.known),
+        None => ("?", "?", 0, PathBuf::from("/verif/replays"), &[]),
+    };
+    let (run, case) = CUR_SLOT.with(|c| match c.get() {
+        Some(s) => (
+            s.busy.load(Ordering::SeqCst).saturating_sub(1),
+            s.case.lock().unwrap().as_ref().and_then(|c| serde_json::from_str::<Value>(c).ok()).unwrap_or(Value::Null),
+        ),
+        None => (0, Value::Null),
+    });
+    let _ = std::fs::create_dir_all(&dir);
+    let path = dir.join(format!("{}-{}-{}-{}.json", prop, name, seed, run));
+    let doc = json!({"format":1,"property":prop,"engine":name,"seed":seed,"run":run,"repo_rev":repo_rev(),"case":case,"violation":v});
+    let _ = std::fs::write(&path, serde_json::to_vec_pretty(&doc).unwrap());
+    if let Some(k) = match_known(known, prop, name, &v) {
+        crate::outln!("KNOWN-FINDING: property={} engine={} {} — {} (batch aborted at run {})", prop, name, v.signature(), k.what, run);
+        std::process::exit(0);
+    }
+    crate::outln!("violation: property={} engine={} class={} site={} run={} (batch aborted: a subject thread cannot be stopped) detail={}", prop, name, v.class, v.site, run, v.detail);
+    crate::outln!("VIOLATION property={} replay={}", prop, path.display());
+    std::process::exit(1);
+}
+
 fn spawn_watchdog<E: Engine>(e: &E, o: &Opts, slots: &'static [Slot], known: Vec<KnownFinding>) {
     let budget_ns = e.cpu_budget_s() * 1_000_000_000;
     let (prop, name) = (e.property(), e.name());
+    let _ = BATCH.set(BatchInfo { prop: e.property(), name: e.name(), seed: o.seed, replay_dir: o.replay_dir.clone(), known: known.clone() });
     let o = o.clone();
     std::thread::spawn(move || loop {
         std::thread::sleep(std::time::Duration::from_millis(250));
